@@ -118,7 +118,7 @@ func init() {
 		omittedTemporal(r, P, st)
 		r.Phase("score sequences", func() { scoreSequences(r, 3, 1) })
 		r.Phase("higher levels queried first", func() { topFirstSweep(r, 3, 1) })
-		r.Phase("first use in fresh processes", func() { firstUseScores(r, 3, 1) })
+		r.Phase("first use in fresh processes", func() { firstUseScores(r, 3, 1); historyVariantsFor(r, 3, 1) })
 		st.report(r, 3)
 		o := oracle.GetV3()
 		r.Set("oracle_ambiguous_roundings", int64(o.Ambiguous))
@@ -659,7 +659,7 @@ func init() {
 			}
 		})
 		r.Phase("score sequences", func() { scoreSequences(r, 3, 2) })
-		r.Phase("first use in fresh processes", func() { firstUseScores(r, 3, 2) })
+		r.Phase("first use in fresh processes", func() { firstUseScores(r, 3, 2); historyVariantsFor(r, 3, 2) })
 		exhaustive := false
 		if thorough {
 			r.Phase("full_product", func() { envFull(r, P, [][3]int{{0, 0, 0}}, 1) })
